@@ -690,4 +690,5 @@ def run(chk):
     shapes.returns_binop(chk, P, "C12.R10:content-length", "the declared content length of a request is its framing prefix plus its payload",
                          "emit_otlp::client::http::HttpContent::content_len", "Add", _call("content_frame_len"), _call("content_payload_len"),
                          "the Content-Length header would not match the body that is sent: the collector rejects the request or waits for bytes that never come")
+    shapes.retry_when_nonempty(chk, P, "C12.batcher:retry-when-nonempty")
     return chk
